@@ -39,12 +39,12 @@ ASSUMPTIONS = [
     'points where the documented formula itself loses more than 1e-10 in float64 (x^l - 1 cancellation) are skipped and counted',
     'segmented_code() is executed only for category names that are Python identifiers',
 ]
-MIN_DISTINCT = {'quick': 500, 'thorough': 5000}
+MIN_DISTINCT = {'quick': 500, 'thorough': 4000}
 CASE_TIMEOUT = 120
 
 N = {
     'quick': {'pw': 210, 'bc': 60, 'dist': 315, 'seg': 100, 'nest': 100},
-    'thorough': {'pw': 2100, 'bc': 500, 'dist': 3150, 'seg': 1000, 'nest': 1000},
+    'thorough': {'pw': 1500, 'bc': 400, 'dist': 2450, 'seg': 800, 'nest': 800},
 }
 
 
